@@ -80,6 +80,7 @@ static STALE_IS_VIOLATION: AtomicBool = AtomicBool::new(true);
 pub static STALE_SLOTS: AtomicU64 = AtomicU64::new(0);
 
 static CONTEXT: Mutex<String> = Mutex::new(String::new());
+static STALE_PROP: Mutex<String> = Mutex::new(String::new());
 
 /// What the workload is doing right now (part of violation signatures).
 pub fn set_context(c: &str) {
@@ -386,7 +387,7 @@ fn h_stale_slot(addr: usize) {
             .take(10)
             .collect();
         report::violation(
-            &format!("C04{}/stale-slot-touched", ctx_suffix()),
+            &format!("{}{}/stale-slot-touched", STALE_PROP.lock().unwrap().clone(), ctx_suffix()),
             format!(
                 "a live reference reads or writes heap slot {:#x}, which the collector has marked free\n{}",
                 addr,
@@ -494,6 +495,7 @@ pub struct VmOptions {
 
 pub fn start(spec: &crate::runner::Spec, opts: VmOptions) -> Engine {
     report::install_panic_hook(opts.panic_class);
+    *STALE_PROP.lock().unwrap() = opts.property.to_string();
     let mut srng = Rng::derive(spec.seed, spec.index, 2);
     let strategy = sched::Strategy::swarm(&mut srng, opts.expected_steps);
     report::set_strategy(strategy.describe());
